@@ -56,6 +56,27 @@ type RedirectOptions struct {
 	FollowRedirParam bool
 }
 
+// IsSafeRedirect reports whether a client supplied redirect target (the redir
+// form value) keeps the browser on this site no matter how the browser
+// resolves it. Only site-absolute paths qualify: absolute URLs and
+// scheme-relative //host forms are out, and so are their browser-tolerated
+// spellings: browsers treat a backslash like a slash and drop tabs and
+// newlines before parsing.
+func IsSafeRedirect(redir string) bool {
+	if len(redir) == 0 || redir[0] != '/' {
+		return false
+	}
+	if len(redir) > 1 && redir[1] == '/' {
+		return false
+	}
+	for i := 0; i < len(redir); i++ {
+		if c := redir[i]; c == '\\' || c < 0x20 || c == 0x7f {
+			return false
+		}
+	}
+	return true
+}
+
 // EmailResponseOptions controls how e-mails are rendered and sent
 type EmailResponseOptions struct {
 	Data         HTMLData
